@@ -130,6 +130,9 @@ class C18(Check):
             sc["zero_range"] = rng.choice(["200", "416", "206"])
             sc["url"] = rng.choice(["http://sim.test/ds", "http://sim.test/ds/",
                                     "precomputed://https://sim.test/ds"])
+            # cold: the accessor is built fault-free before the window and
+            # must serve the same request again once the faults have stopped
+            sc["cold"] = rng.random() < 0.5
             if kind == "http":
                 sc["flat"] = rng.random() < 0.6    # deep => nginx rules
         if op == "pyramid":
@@ -659,29 +662,39 @@ class C18(Check):
         grid1 = dsutil.chunk_grid(s1["size"], s1["chunk_sizes"][0])
         name = opd["name"]
         url = sc.get("url", "http://sim.test/ds/")
+        cold = bool(sc.get("cold"))
+        holder = [None]
+
+        def accessor():
+            # fresh: built inside the fault window; cold: prepared outside
+            if cold:
+                return holder[0]
+            return get_accessor_for_url(url)
+
         with mounted(fs):
             local = get_accessor_for_url(DS)
             if name == "http_fetch_chunk":
                 key, co = "s0", grid0[opd["ci"] % len(grid0)]
                 expect = ("bytes", local.fetch_chunk(key, co))
-                run = lambda: get_accessor_for_url(url).fetch_chunk(key, co)
+                run = lambda: accessor().fetch_chunk(key, co)
             elif name == "http_fetch_absent":
                 key, co = "s1", grid1[opd["ci"] % len(grid1)]
                 expect = ("raise", None)
-                run = lambda: get_accessor_for_url(url).fetch_chunk(key, co)
+                run = lambda: accessor().fetch_chunk(key, co)
             elif name == "http_fetch_info":
                 expect = ("bytes", local.fetch_file("info"))
-                run = lambda: get_accessor_for_url(url).fetch_file("info")
+                run = lambda: accessor().fetch_file("info")
             elif name == "http_exists":
                 expect = ("bool", True)
-                run = lambda: get_accessor_for_url(url).file_exists("info")
+                run = lambda: accessor().file_exists("info")
             else:
                 expect = ("bool", False)
-                run = lambda: get_accessor_for_url(url).file_exists(
-                    "nothing.bin")
+                run = lambda: accessor().file_exists("nothing.bin")
         sigs = set()
         evals = 0
         with mounted(fs), serving(server):
+            if cold:
+                holder[0] = get_accessor_for_url(url)
             server.begin_window(record=True)
             st, v = sut(run)
             reqs = list(server.requests)
@@ -722,6 +735,8 @@ class C18(Check):
                 if res.violations:
                     break
                 before = dict(server.fired)
+                if cold:
+                    holder[0] = get_accessor_for_url(url)
                 server.begin_window({k: tuple(a) for k, a in plan})
                 log.add("PLAN", repr(plan))
                 st, v = sut(run)
@@ -772,6 +787,25 @@ class C18(Check):
                             + "+".join(sorted(fired)), narrow=narrow)
                     else:
                         res.probe("normal_return_effect_in_place")
+                if cold and expect[0] in ("bytes", "bool") and (
+                        not res.violations):
+                    # the faults have stopped: the same accessor object must
+                    # serve the request ("everything stored earlier remains
+                    # readable")
+                    s2, v2 = sut(run)
+                    if not (s2 == "ok" and v2 == expect[1]):
+                        res.violate(
+                            "C18/not-readable-after-faults",
+                            f"{where}: once the faults stopped, the same "
+                            f"accessor answers "
+                            f"{excname(v2) if s2 == 'exc' else 'a wrong value'}"
+                            " for the same request",
+                            key=f"C18/not-readable-after-faults/"
+                            f"{sc['kind']}/{name}/"
+                            f"{excname(v2) if s2 == 'exc' else 'wrong'}",
+                            narrow=narrow)
+                    else:
+                        res.probe("same_accessor_recovers")
         res.evals = evals + 1
         res.digest = log.digest()
         res.steps = fs.total_calls + server.total
